@@ -39,7 +39,8 @@ def trait_defs():
     for t in ["Ma", "Mb"] + CASED:
         out.append("#[cglue_trait]\npub trait %s {\n    fn %s(&self) -> u64;\n}" % (t, meth(t)))
     for t in FWD:
-        out.append("#[cglue_trait]\n#[cglue_forward]\npub trait %s {\n    fn %s(&self) -> u64;\n}" % (t, meth(t)))
+        # a provided method that every implementor overrides: the forwarding impl for Fwd<..> must forward it as well
+        out.append("#[cglue_trait]\n#[cglue_forward]\npub trait %s {\n    fn %s(&self) -> u64;\n    fn %s_dflt(&self) -> u64 {\n        0xDEAD_0000\n    }\n}" % (t, meth(t), meth(t)))
     out.append("#[cglue_trait]\npub trait Tt<T> {\n    fn tt(&self, v: T) -> u64;\n}")
     return "\n".join(out)
 
@@ -54,8 +55,10 @@ def imp_type(name):
     for t in ["Hm"] + MOPT:
         out.append("impl %s for %s { fn %s(&self) -> u64 { self.id * 1000 + %d + self.acc } fn %s_mut(&mut self, add: u64) -> u64 { self.acc += add * %d; self.id * 1000 + %d + self.acc } }" % (
             t, name, meth(t), CODE[t], meth(t), CODE[t], CODE[t]))
-    for t in ["Ma", "Mb"] + CASED + FWD:
+    for t in ["Ma", "Mb"] + CASED:
         out.append("impl %s for %s { fn %s(&self) -> u64 { self.id * 1000 + %d + self.acc } }" % (t, name, meth(t), CODE[t]))
+    for t in FWD:
+        out.append("impl %s for %s { fn %s(&self) -> u64 { self.id * 1000 + %d + self.acc } fn %s_dflt(&self) -> u64 { self.id * 1000 + %d + 500 + self.acc } }" % (t, name, meth(t), CODE[t], meth(t), CODE[t]))
     out.append("impl Tt<usize> for %s { fn tt(&self, v: usize) -> u64 { self.id * 1000 + 6 + v as u64 } }" % name)
     out.append("impl Tt<u64> for %s { fn tt(&self, v: u64) -> u64 { self.id * 1000 + 7 + v } }" % name)
     return "\n".join(out)
@@ -73,6 +76,8 @@ def calls_on(var, traits, mutable, mand, kind):
             st.append("if Tt::<%s>::tt(%s, 5) != id * 1000 + %d + 5 { return Err((\"cast:dispatch\".into(), format!(\"{}: %s dispatched to the wrong instance/trait\", what))); }" % (ty, asref, CODE[t], t))
         else:
             st.append("if %s.%s() != id * 1000 + %d + acc { return Err((\"cast:dispatch\".into(), format!(\"{}: %s::%s returned a value of another instance/trait\", what))); }" % (var, meth(t), CODE[t], t, meth(t)))
+            if t in FWD:
+                st.append("if %s.%s_dflt() != id * 1000 + %d + 500 + acc { return Err((\"cast:dispatch_provided\".into(), format!(\"{}: the provided method %s::%s_dflt, overridden by the implementor, did not reach the implementor's override\", what))); }" % (var, meth(t), CODE[t], t, meth(t)))
     if mutable:
         for t in names:
             if t not in MUTABLE:
